@@ -150,6 +150,13 @@ FsUnderModels(Tg) ==
                  E \in (SUBSET (1..k)) \ {{}, 1..k}} : k \in 2..MaxSp}
 FsUnder(Tg) == {mm \in FsUnderModels(Tg) : mm.embedDecl \cup {d[1] : d \in mm.densDecl} \cup {d[2] : d \in mm.densDecl} = Range(mm.els)}
 
+\* under-specified ADP models: the dipole / quadrupole functions are declared for every element pair (or for none), also for the
+\* elements whose embedding function is zero-filled
+AdpUnder(Tg) ==
+  UNION {{[mm EXCEPT !.fam = "adp", !.dip = PotSeqOf(DP), !.quad = PotSeqOf(QP)] :
+            DP \in {{}, {<<a, b>> \in Range(mm.els) \X Range(mm.els) : a >= b}},
+            QP \in {{}, {<<a, b>> \in Range(mm.els) \X Range(mm.els) : a <= b}}} : mm \in EamUnder(Tg)}
+
 \* Pair potentials that name a species without any EAM function ("foreign": rank MaxSp + 1).  Such a species is not an
 \* element of the table: the setfl / TABEAM pair blocks run over element pairs only, the declaration is not used there.
 Foreign == MaxSp + 1
@@ -168,6 +175,7 @@ Models == CASE Family = "pair" -> PairModels(Targets)
             [] Family = "adp" -> AdpModels(Targets)
             [] Family = "funcfl" -> FuncflModels(Targets)
             [] Family = "eam_under" -> EamUnder(Targets)
+            [] Family = "adp_under" -> AdpUnder(Targets)
             [] Family = "fs_under" -> FsUnder(Targets)
             [] Family = "pair_dup" -> PairDupModels(Targets)
             [] Family = "eam_foreign" -> EamForeign(Targets)
